@@ -130,6 +130,9 @@ class LinProver:
                 lo.append(x)
         elif atom == self.P:
             lo.append(Lin(1))
+            if isinstance(self.s, tuple) and self.s and self.s[0] == 'c' and 0 <= self.s[1] < 128:
+                lo.append(Lin(1 << self.s[1]))      # a concrete shift: P is the constant 2^s
+                hi.append(Lin(1 << self.s[1]))
         elif isinstance(atom, tuple) and atom and atom[0] == 'max' and len(atom) == 3:
             lo.append(self.lin(atom[1]))
             lo.append(self.lin(atom[2]))
